@@ -7,7 +7,8 @@
    FULL STATEMENT of the property: for every client program over {configure, start, trigger, map, unmap, stop, abort,
    get_state, shutdown}, in any order and number, every schedule: the monitor never fails and after shutdown every
    instance is closed.  What is proved here (C08_discipline_partial) is that statement for grammar G1 -- the programs
-   whose traces the model accepts: configure and start are issued while no worker of the stream is alive.  Outside G1 the
+   whose traces the model accepts: configure is issued while no worker thread is alive; start too, or it is refused at once
+   because the first configured stream is still running (start while running).  Outside G1 the
    full statement is FALSE of the unchanged code (known findings of the check, replayed on the real runtime: configure
    while running re-arms a running storage, which is then never stopped and is closed while running; configure with other
    device identifiers while running closes a camera the source thread is using); the model does not accept such traces,
@@ -31,6 +32,14 @@ Theorem C08_closed_by_shutdown : forall tr y,
   exists m, lc_run (fun _ => LNew) (tr ++ [EvG GShutdownRet]) = Some m /\ forall n, In n (opens tr) -> m n = LClosed.
 Proof. exact all_closed_after_shutdown. Qed.
 Print Assumptions C08_closed_by_shutdown.
+
+(* start while running (within the proved grammar): acquire_start on a runtime whose first configured stream is still running
+   is refused before any device is touched -- the four device slots are unchanged -- and the error path then aborts the
+   running acquisition (the life-cycle theorem above covers the whole trace, the abort included) *)
+Theorem C08_start_while_running_touches_no_device : forall y y',
+  step y (EvG GStartRefused) = Some y' -> slots y' = slots y /\ in_call y' = InStartFail /\ in_call y = InStartBusy.
+Proof. exact start_refused_touches_no_device. Qed.
+Print Assumptions C08_start_while_running_touches_no_device.
 
 (* the runtime reports Running only while a worker of a configured stream is alive ... *)
 Theorem C08_running_report_means_alive : forall y y',
